@@ -6,12 +6,13 @@ OCDIR=$(ROOT)/ocaml
 setup: coq extract forbidden
 # Files that depend on definitions regenerated from /repo's source (coq/Gen): they are rebuilt from scratch and a
 # failure there does not stop the build - the property checks compile their Props file themselves and report it.
-GENDEP=Gen/TlsConfigGen Gen/PyGen Proofs/Equiv_proofs Equiv/Equiv $(patsubst %,Props/C%,01 02 03 04 05 06 07 08 09 10 11 12 13 14 15 16 17 18 19 20)
+GENDEP=Gen/TlsConfigGen Gen/PyGen Proofs/Equiv_proofs Equiv/Equiv Gen/ServerGen Proofs/EquivServer_proofs Equiv/EquivServer $(patsubst %,Props/C%,01 02 03 04 05 06 07 08 09 10 11 12 13 14 15 16 17 18 19 20)
 coq:
 	mkdir -p $(COQDIR)/Gen && python3 $(ROOT)/translate/tlsconf.py $(COQDIR)/Gen/TlsConfigGen.v
 	python3 $(ROOT)/translate/py2coq.py $(COQDIR)/Gen/PyGen.v
+	python3 $(ROOT)/translate/py2coq_server.py $(COQDIR)/Gen/ServerGen.v
 	cd $(COQDIR) && rm -f $(addsuffix .vo,$(GENDEP)) $(addsuffix .glob,$(GENDEP)) $(addsuffix .vos,$(GENDEP)) $(addsuffix .vok,$(GENDEP))
-	cd $(COQDIR) && coq_makefile -f _CoqProject -o Makefile.coq >/dev/null && timeout 3000 $(MAKE) -f Makefile.coq -j16 Extract/Dispatch.vo $$(grep -E '^(Proofs|Spec|Model|Prelude)/' _CoqProject | grep -v Equiv_proofs | sed 's/\.v$$/.vo/') > build.log 2>&1 || (tail -40 build.log; exit 1)
+	cd $(COQDIR) && coq_makefile -f _CoqProject -o Makefile.coq >/dev/null && timeout 3000 $(MAKE) -f Makefile.coq -j16 Extract/Dispatch.vo $$(grep -E '^(Proofs|Spec|Model|Prelude)/|^Equiv/.*Glue' _CoqProject | grep -v 'Equiv.*_proofs' | sed 's/\.v$$/.vo/') > build.log 2>&1 || (tail -40 build.log; exit 1)
 	cd $(COQDIR) && (timeout 3000 $(MAKE) -k -f Makefile.coq -j16 > build2.log 2>&1 || (echo "note: some source-dependent files did not compile (see coq/build2.log); the property checks will report them"; grep -B2 -A12 "Error" build2.log | head -60; true))
 extract: coq
 	mkdir -p $(OCDIR)/gen && cd $(OCDIR)/gen && timeout 600 coqc -Q $(COQDIR) NV $(COQDIR)/Extract/Extract.v > extract.log 2>&1 || (cat extract.log; exit 1)
